@@ -390,6 +390,12 @@ def _contains_rec(t):
     return False
 
 
+def prov_assuming(fn, assumptions, ctx=None, cut=False):
+    """Provenance specialised to assumed outcomes of branch atoms: [(atom, truth)]."""
+    from .preach import assume
+    return Prov(fn, assume(fn, assumptions, ctx), cut=cut)
+
+
 def prov_of(fn, ctx=None, cut=False):
     """Provenance engine of fn; with ctx (dict of bool params) the reaching definitions are
     restricted to the edges feasible in that context; with cut=True re-assigned named
